@@ -37,7 +37,7 @@ KINDS = ["always", "raise", "done.state", "done.invoke", "nested"]
 
 def plan(tier):
     q = tier == "quick"
-    return [{"name": "main", "examples": 6000 if q else 40000}]
+    return [{"name": "main", "examples": 12000 if q else 40000}]
 
 
 def strategy(tier, campaign):
